@@ -73,8 +73,13 @@ type World struct {
 	maxSpread int // largest difference between the member sets of two running nodes seen so far
 }
 
+var liveTrace = os.Getenv("VERIF_LIVE_TRACE") != ""
+
 func (w *World) note(format string, a ...interface{}) {
 	w.Trace = append(w.Trace, fmt.Sprintf("[%6dms] ", msOf(time.Now())-3600000) + fmt.Sprintf(format, a...))
+	if liveTrace {
+		fmt.Fprintf(os.Stderr, "%d %s\n", time.Now().UnixNano(), w.Trace[len(w.Trace)-1])
+	}
 }
 
 func (w *World) tick() int { w.seq++; return w.seq }
@@ -1093,7 +1098,11 @@ func (w *World) catchUpPattern() string {
 	la := w.S.Nodes[lead].R.Status().LastApplied
 	ls := w.S.Nodes[lead].FSM.State()
 	behind, differs := false, false
+	cfg := w.S.Nodes[lead].R.Configuration()
 	for _, id := range w.S.IDs() {
+		if _, member := cfg.Members[ID(id)]; !member {
+			continue // like allCaughtUp: a node that is not (or no longer) a member owes nothing
+		}
 		st := w.S.Nodes[id].R.Status()
 		fs := w.S.Nodes[id].FSM.State()
 		if st.LastApplied < la {
